@@ -358,22 +358,6 @@ theorem get_tail (key k : String) (v : J) (r : List (String × J)) (h : key ≠ 
     Model.IRJson.get (.obj ((k, v) :: r)) key = Model.IRJson.get (.obj r) key := by
   simp [Model.IRJson.get, lookupKey, h]
 
-/-- the reader's state before the first subroutine -/
-structure PreInv (gdone : List String) (st : BState) : Prop where
-  json : st.json = true
-  globals : ∀ x, x ∈ st.globals ↔ x ∈ gdone
-  pending : st.pending = []
-  funcs : st.funcs = []
-  cur : st.cur = []
-  blocks : st.blocks = []
-
-theorem defineGlobal_fresh {gdone : List String} {st : BState} (h : PreInv gdone st) (x : String)
-    (hx : x ∉ gdone) : ∃ st', defineGlobal st x = .ok st' ∧ PreInv (x :: gdone) st' := by
-  have hxg : x ∉ st.globals := fun hm => hx ((h.globals x).1 hm)
-  refine ⟨{ st with globals := x :: st.globals }, ?_, ⟨h.json, ?_, h.pending, h.funcs, h.cur, h.blocks⟩⟩
-  · simp [defineGlobal, h.pending, lookupTy, hxg]
-  · intro y; simp [h.globals y]
-
 theorem readExtern_writeExtern {gdone : List String} {st : BState} (h : PreInv gdone st) (e : Extern)
     (hx : e.name ∉ gdone) :
     ∃ st', readExtern st (writeExtern e) = .ok (st', e) ∧ PreInv (e.name :: gdone) st' := by
@@ -563,7 +547,7 @@ theorem readModule_writeModule (m : Module) (h : fragCore m = true) :
   refine ⟨_, by rw [writeModule, hjfs], ?_⟩
   -- externals, variables
   have hnames : m.globalNames = m.externs.map (fun e : Extern => e.name) ++ m.vars.map (fun v : GVar => v.name) ++ m.funcs.map (fun f : Func => f.name) := rfl
-  have h0 : PreInv [] ({ json := true } : BState) := ⟨rfl, by simp, rfl, rfl, rfl, rfl⟩
+  have h0 : PreInv [] ({ json := true } : BState) := ⟨by simp, rfl, rfl, rfl, rfl⟩
   have hnd_e : (([] : List String) ++ m.externs.map (fun e : Extern => e.name)).Nodup := by
     rw [hnames, List.append_assoc] at hGnd
     simpa using (List.nodup_append.1 hGnd).1
